@@ -268,6 +268,7 @@ def step (s : DS) (line : String) : DS × String :=
         else ({ s with a := some a, blk := some blk, dead := true },
               st.name ++ (if st == .eformat then (if a.haveErr then " msg" else " nomsg") else "") ++ exc)
     | _, _, _, _, _, _ => (s, "bad-op")
+  | "afetch" :: _ => ({ s with a := none, ssi := none }, "unmodelled")    -- alignment databases: harness + monitor only
   | "guessabc" :: _ => ({ s with unmodelled := true }, "unmodelled")
   | "wfasta" :: _ =>
     if s.unmodelled then (s, "unmodelled") else (s, s!"ok hex={hexOrDash (writeFasta s.sq)}")
